@@ -60,10 +60,20 @@ Definition unreserved (a : ascii) : bool :=
 Definition strs_eqb := list_eqb String.eqb.
 
 (* Device authorization response fields *)
-Definition device_fields_ok (g : cfg) (life : Z) (dc uc vuri vuric : string) (e i : Z) : bool :=
+(* "a verification URI on the provider's issuer": scheme and host of the issuer
+   derived from THIS request, followed by the configured form path; when the
+   operator configures the (deprecated) absolute form URL, that URL *)
+Definition expected_verification_uri (g : cfg) (host : string) (fwd : option string) : string :=
+  match g_form g with
+  | FormPath p => (request_origin g host fwd ++ p)%string
+  | FormURL u => u
+  end.
+
+Definition device_fields_ok (g : cfg) (host : string) (fwd : option string) (life : Z)
+    (dc uc vuri vuric : string) (e i : Z) : bool :=
   device_code_ok dc
   && user_code_ok (g_charset g) (g_amount g) (g_dash g) uc
-  && String.eqb vuri (g_origin g ++ g_path g)%string
+  && String.eqb vuri (expected_verification_uri g host fwd)
   && (if all_chars unreserved uc
       then String.eqb vuric (vuri ++ "?user_code=" ++ uc)%string
       else is_prefix (vuri ++ "?user_code=")%string vuric)
@@ -119,8 +129,9 @@ Definition refusal_ok (cl : list client) (gt : store) (cr : creds) (dc : string)
 
 Definition step_ok (g : cfg) (cl : list client) (gt : store) (o : op) (x : resp) : bool :=
   match o, x with
-  | OpAuthz _ _ _ _ life _, RDevice dc uc vu vuc e i => device_fields_ok g life dc uc vu vuc e i
-  | OpAuthz _ _ _ _ _ _, RErr _ => true
+  | OpAuthz _ _ _ _ life _ host fwd, RDevice dc uc vu vuc e i =>
+      device_fields_ok g host fwd life dc uc vu vuc e i
+  | OpAuthz _ _ _ _ _ _ _ _, RErr _ => true
   | OpApprove _ _, RAck _ => true
   | OpDeny _, RAck _ => true
   | OpPoll _ cr dc _ f, RTokens sub client scopes idsub _ =>
@@ -133,7 +144,7 @@ Definition step_ok (g : cfg) (cl : list client) (gt : store) (o : op) (x : resp)
    implementation answered, user decisions from the history *)
 Definition gt_next (gt : store) (o : op) (x : resp) : store :=
   match o, x with
-  | OpAuthz _ cr scopes now life _, RDevice dc uc _ _ _ _ =>
+  | OpAuthz _ cr scopes now life _ _ _, RDevice dc uc _ _ _ _ =>
       mkDev dc uc (claimed cr) scopes (now + ns_of_s life)%Z false false "" :: gt
   | OpApprove uc sub, _ => on_user uc (approve_dev sub) gt
   | OpDeny uc, _ => on_user uc deny_dev gt
@@ -165,7 +176,7 @@ Definition client_ok (c : client) : bool := negb (String.eqb (c_id c) "").
 
 Definition op_ok (o : op) : bool :=
   match o with
-  | OpAuthz _ _ _ _ _ rnd => 16 <=? List.length rnd
+  | OpAuthz _ _ _ _ _ rnd _ _ => 16 <=? List.length rnd
   | _ => true
   end.
 
